@@ -169,11 +169,19 @@ func c02Check(c *Ctx, doc *XElem, cfg Cfg, enc, prefix, indent string, choices [
 	return true
 }
 
+var c02Vals = []string{"v", " v ", "1.0", "true", "<&\"'>", "it's", "é\tü\n", "007", "&amp;", "]]>", "say \"hi\"", "3.14159265", "16777217", "-1.7976931348623157e308", "a\ufffdb\U0001F600", "18446744073709551615"}
+
+// c02CoreValues: when set, c02Decos uses the first 9 values only (pairs of decorations in the quick tier).
+var c02CoreValues bool
+
 func c02Decos(base *XElem, thorough bool) []Deco {
 	var ds []Deco
 	els := base.elems()
 	attrNames := []string{"x", "x-y", "n:x", "X"}
-	vals := []string{"v", " v ", "1.0", "true", "<&\"'>", "it's", "é\tü\n", "007", "&amp;", "]]>", "say \"hi\"", "3.14159265", "16777217", "-1.7976931348623157e308", "a\ufffdb\U0001F600", "18446744073709551615"}
+	vals := c02Vals
+	if c02CoreValues {
+		vals = vals[:9]
+	}
 	renames := []string{"B", "a-b", "n:a"}
 	for i, e := range els {
 		nk := len(e.Items)
@@ -249,7 +257,7 @@ func c02Cfgs(maxDev int) []Cfg {
 
 func c02Run(c *Ctx) {
 	mustBeDefault(c)
-	c.S.Rule = "cases = (document, configuration, encoder): documents are all element trees with <= N elements (names over {a,b}) with <= 1 decoration (attribute / text at every position / renamed element; values with all five XML special characters, blanks, tab/newline, non-ASCII, number and boolean look-alikes, an already-escaped sequence, ]]>) under all 512 symmetric configurations (attribute prefix {-,@} x key prefix {#,_} x lower x snake x simple-as-map x keep-spaces x escaping {encoder-side, decoder-side, both requested in either call order, both requested through the no-argument setter forms} x cast; configurations with <= 1 deviation also reached through the no-argument (toggle) setter forms), and with 2 decorations under configurations with <= 2 option deviations; encoders Xml and XmlIndent with (prefix,indent) in {(\"\",\"  \"),(\"\",\"\\t\"),(\" \",\" \")}. Oracle: re-encoded text well formed (single root), decode(encode(m1)) == m1, and the reference decode of the re-encoded text's parse equals m1. Ascending and descending map order; E-choice bound 1 over map order on the small documents. non-trivial = round trip executed."
+	c.S.Rule = "cases = (document, configuration, encoder): documents are all element trees with <= N elements (names over {a,b}) with <= 1 decoration (quick: trees with N-1 elements meet every second (configuration, document, encoder) triple and all configurations with <= 2 deviations, trees with N elements the latter only) (attribute / text at every position / renamed element; values with all five XML special characters, blanks, tab/newline, non-ASCII, number and boolean look-alikes, an already-escaped sequence, ]]>) under all 512 symmetric configurations (attribute prefix {-,@} x key prefix {#,_} x lower x snake x simple-as-map x keep-spaces x escaping {encoder-side, decoder-side, both requested in either call order, both requested through the no-argument setter forms} x cast; configurations with <= 1 deviation also reached through the no-argument (toggle) setter forms), and with 2 decorations (quick: over the first 9 values) under configurations with <= 2 option deviations; encoders Xml and XmlIndent with (prefix,indent) in {(\"\",\"  \"),(\"\",\"\\t\"),(\" \",\" \")}. Oracle: re-encoded text well formed (single root), decode(encode(m1)) == m1, and the reference decode of the re-encoded text's parse equals m1. Ascending and descending map order; E-choice bound 1 over map order on the small documents. non-trivial = round trip executed."
 	c.S.Assumptions = []string{"element names do not begin with the attribute prefix; attribute prefixes non-empty (as the property states)", "integer casting and tag sequence numbers excluded (documented as asymmetric)"}
 	maxA, maxB, ech := 4, 3, 2
 	if c.Thorough {
@@ -257,12 +265,14 @@ func c02Run(c *Ctx) {
 	}
 	type encSpec struct{ enc, prefix, indent string }
 	encs := []encSpec{{"Xml", "", ""}, {"XmlIndent", "", "  "}, {"XmlIndent", "", "\t"}, {"XmlIndent", " ", " "}}
-	var docsA, docsA2, docsB []*XElem
+	var docsA, docsA3, docsA2, docsB []*XElem
 	for n := 1; n <= maxA; n++ {
 		for _, base := range baseTrees(n, "r", []string{"a", "b"}, 3) {
 			dst := &docsA
 			if n == maxA && !c.Thorough {
 				dst = &docsA2 // quick: the largest trees meet the configurations with <= 2 option deviations only
+			} else if n == maxA-1 && !c.Thorough {
+				dst = &docsA3 // quick: the second largest meet every second (configuration, document, encoder) triple
 			}
 			*dst = append(*dst, base)
 			for _, d := range c02Decos(base, c.Thorough) {
@@ -274,7 +284,9 @@ func c02Run(c *Ctx) {
 	}
 	for n := 1; n <= maxB; n++ {
 		for _, base := range baseTrees(n, "r", []string{"a", "b"}, 3) {
+			c02CoreValues = !c.Thorough
 			ds := c02Decos(base, false)
+			c02CoreValues = false
 			for i := range ds {
 				for j := i + 1; j < len(ds); j++ {
 					if doc, ok := applyDecos(base, []Deco{ds[i], ds[j]}); ok && !c01OutOfUniverse(doc) {
@@ -285,7 +297,7 @@ func c02Run(c *Ctx) {
 		}
 	}
 	if c.Shard == 0 {
-		c.Count("documents_le1_decoration", int64(len(docsA)+len(docsA2)))
+		c.Count("documents_le1_decoration", int64(len(docsA)+len(docsA2)+len(docsA3)))
 		c.Count("documents_2_decorations", int64(len(docsB)))
 	}
 	run := func(cfgs []Cfg, docs []*XElem, cfgStride int) {
@@ -336,6 +348,8 @@ func c02Run(c *Ctx) {
 		}
 	}
 	run(c02Cfgs(-1), docsA, 1)
+	run(c02Cfgs(-1), docsA3, 2)
+	run(c02Cfgs(2), docsA3, 1)
 	run(c02Cfgs(2), docsA2, 1)
 	stride := 4
 	if c.Thorough {
